@@ -348,7 +348,17 @@ func (g *PG) stmt(c genCtx) string {
 		}
 	case "coerce":
 		fb := g.fnBody(c)
-		switch g.n(0, 3, "coshape") {
+		switch g.n(0, 6, "coshape") {
+		case 4:
+			// the value is converted to a string while an error message is built
+			e := g.id("ce")
+			return "try{(0,{toString:function(){" + fb + "return 'x'}})()}catch(" + e + "){}"
+		case 5:
+			e := g.id("ce")
+			return "try{[1].forEach({toString:function(){" + fb + "return 'y'}})}catch(" + e + "){}"
+		case 6:
+			e := g.id("ce")
+			return "try{Function.prototype.call.call({toString:function(){" + fb + "return 'z'}})}catch(" + e + "){}"
 		case 0:
 			return "S.n+=+{valueOf:function(){" + fb + "return 1}};"
 		case 1:
